@@ -4,7 +4,7 @@
    An individual is (uid, wvalues); uid = position in the input list (object identity). *)
 From Coq Require Import List ZArith Bool Permutation.
 From DV Require Import Base.PyTuple Base.PyList Model.C04_NDSort Model.C04_LogSort
-  Proofs.C04_NDSort Proofs.C04_NDLoop Proofs.C04_Spec.
+  Proofs.C04_NDSort Proofs.C04_NDLoop Proofs.C04_Spec Proofs.C04_LogWrap.
 Import ListNotations.
 Local Open Scope Z_scope.
 
@@ -89,6 +89,23 @@ Theorem C04_sort_nd_first_front_only : forall pop k,
             forall x, In x F <-> In x pop /\ forall y, In y pop -> idom y x = false.
 Proof. exact nd_first_front_only. Qed.
 Print Assumptions C04_sort_nd_first_front_only.
+
+(* ------------------------------------------------------------------------------------------
+   sortLogNondominated.
+   FULL STATEMENT (target):
+     forall pop k ffo, NoDup (map uid pop) -> same_len (map iw pop) -> pop <> [] ->
+       2 <= number of objectives ->
+       exists r, sort_log pop k ffo = Some r /\ Forall2 Permutation (log_fronts r) (spec_sort pop k ffo)
+   Proved here: the wrapper, for ANY rank map that satisfies the rank recurrence
+   (rank f = 0, or 1 + the rank of some dominator, and > the rank of every dominator). *)
+Theorem C04_log_wrapper_correct : forall pop sorted front k ffo,
+  NoDup (map uid pop) -> same_len (map iw pop) -> pop <> [] ->
+  Permutation sorted (kkeys (group_inds pop)) -> kkeys front = kkeys (group_inds pop) ->
+  rank_rec (kkeys (group_inds pop)) front ->
+  log_ranks pop = Some (sorted, front) ->
+  exists r, sort_log pop k ffo = Some r /\ Forall2 (@Permutation ind) (log_fronts r) (spec_sort pop k ffo).
+Proof. intros pop sorted front k ffo H1 H2 H3 H4 H5 H6 H7. exact (log_wrapper_correct pop H1 H2 H3 sorted front H4 H5 H6 k ffo H7). Qed.
+Print Assumptions C04_log_wrapper_correct.
 
 (* non-vacuity: a population meeting the hypotheses, with a duplicate and a tie *)
 Example C04_nonvacuous :
